@@ -172,3 +172,11 @@ Definition jv_line (r : line_res) : jv :=
   | LineErr => JL [JZ 0]
   | LineAssert => JL [JZ (-1)]
   end.
+
+(* LogLine.date: _read_line(MAX_DATETIME_READ_BYTES) at start_offset, handed
+   to the constraint's timestamp matcher (an oracle [tsw] on byte windows) *)
+Definition logline_window (W : Z) (c : list Z) (slf : tok) : list Z :=
+  read c (start_offset slf) W.
+Definition logline_date (tsw : list Z -> option Z) (W : Z) (c : list Z)
+           (slf : tok) : option Z :=
+  tsw (logline_window W c slf).
